@@ -89,9 +89,9 @@ FAMILIES = {
     "C36": ["timeconv"],
     "C38": ["marble"],
     "C41": ["bridge"],
-    "C33": ["aio"],
-    "C31": ["evloop"],
-    "C34": ["evloop", "periodic"],
+    "C33": ["aio", "timeconv"],
+    "C31": ["evloop", "timeconv"],
+    "C34": ["evloop", "periodic", "timeconv"],
     "C14": ["early", "op", "srcfac", "srcwire", "own", "class", "subscribe", "tramp"],
     "C02": ["own", "class", "subscribe", "compose", "monitor", "refcount"],
     "C03": ["own", "class", "subscribe", "compose", "srcfac", "monitor", "refcount"],
@@ -99,7 +99,7 @@ FAMILIES = {
     "C42": ["catchsched"],
     "C09": ["guard", "op", "subscribe"],
     "C30": ["tramp"],
-    "C35": ["periodic", "catchsched", "srcwire", "evloop"],
+    "C35": ["periodic", "catchsched", "srcwire", "evloop", "timeconv"],
     "C37": ["srcfac", "srcwire"],
     "C10": ["seqcomp", "op"],
     "C24": ["mcast"],
@@ -115,8 +115,8 @@ FAMILIES = {
     "C13": ["op", "srcwire"],
     "C16": ["op", "timedextra", "grouping"],
     "C17": ["op", "seqlemma", "timedextra"],
-    "C28": ["vts"],
-    "C29": ["vts"],
+    "C28": ["vts", "timeconv"],
+    "C29": ["vts", "timeconv"],
     "C25": ["monitor", "scheddisp"],
     "C26": ["monitor"],
     "C27": ["monitor", "refcount"],
